@@ -31,6 +31,8 @@ pub struct Rec {
     pub new_size: usize, // realloc only
     pub new_ptr: usize,  // realloc only
     pub injected_fail: bool,
+    /// monitor bookkeeping (ledger, logs): matched by the audit but exempt from the rules
+    pub masked: bool,
 }
 
 pub const CAP: usize = 8192;
@@ -41,7 +43,7 @@ struct Log {
     recs: [Rec; CAP],
 }
 
-const EMPTY: Rec = Rec { op: Op::Alloc, ptr: 0, size: 0, align: 0, new_size: 0, new_ptr: 0, injected_fail: false };
+const EMPTY: Rec = Rec { op: Op::Alloc, ptr: 0, size: 0, align: 0, new_size: 0, new_ptr: 0, injected_fail: false, masked: false };
 
 thread_local! {
     static WINDOW: Cell<bool> = const { Cell::new(false) };
@@ -55,7 +57,11 @@ pub struct Recorder;
 
 #[inline]
 fn recording() -> bool {
-    WINDOW.try_with(|w| w.get()).unwrap_or(false) && MASK.try_with(|m| m.get() == 0).unwrap_or(false)
+    WINDOW.try_with(|w| w.get()).unwrap_or(false)
+}
+#[inline]
+fn masked() -> bool {
+    MASK.try_with(|m| m.get() != 0).unwrap_or(true)
 }
 
 fn push(r: Rec) {
@@ -72,6 +78,9 @@ fn push(r: Rec) {
 
 /// true if this (unmasked, in-window) allocation request must fail
 fn should_fail() -> bool {
+    if masked() {
+        return false;
+    }
     REQS.with(|r| r.set(r.get() + 1));
     FAIL_AT.with(|f| {
         let v = f.get();
@@ -91,11 +100,11 @@ unsafe impl GlobalAlloc for Recorder {
     unsafe fn alloc(&self, layout: Layout) -> *mut u8 {
         if recording() {
             if should_fail() {
-                push(Rec { op: Op::Alloc, ptr: 0, size: layout.size(), align: layout.align(), new_size: 0, new_ptr: 0, injected_fail: true });
+                push(Rec { op: Op::Alloc, ptr: 0, size: layout.size(), align: layout.align(), new_size: 0, new_ptr: 0, injected_fail: true, masked: false });
                 return core::ptr::null_mut();
             }
             let p = System.alloc(layout);
-            push(Rec { op: Op::Alloc, ptr: p as usize, size: layout.size(), align: layout.align(), new_size: 0, new_ptr: 0, injected_fail: false });
+            push(Rec { op: Op::Alloc, ptr: p as usize, size: layout.size(), align: layout.align(), new_size: 0, new_ptr: 0, injected_fail: false, masked: masked() });
             p
         } else {
             System.alloc(layout)
@@ -104,11 +113,11 @@ unsafe impl GlobalAlloc for Recorder {
     unsafe fn alloc_zeroed(&self, layout: Layout) -> *mut u8 {
         if recording() {
             if should_fail() {
-                push(Rec { op: Op::AllocZeroed, ptr: 0, size: layout.size(), align: layout.align(), new_size: 0, new_ptr: 0, injected_fail: true });
+                push(Rec { op: Op::AllocZeroed, ptr: 0, size: layout.size(), align: layout.align(), new_size: 0, new_ptr: 0, injected_fail: true, masked: false });
                 return core::ptr::null_mut();
             }
             let p = System.alloc_zeroed(layout);
-            push(Rec { op: Op::AllocZeroed, ptr: p as usize, size: layout.size(), align: layout.align(), new_size: 0, new_ptr: 0, injected_fail: false });
+            push(Rec { op: Op::AllocZeroed, ptr: p as usize, size: layout.size(), align: layout.align(), new_size: 0, new_ptr: 0, injected_fail: false, masked: masked() });
             p
         } else {
             System.alloc_zeroed(layout)
@@ -116,18 +125,18 @@ unsafe impl GlobalAlloc for Recorder {
     }
     unsafe fn dealloc(&self, ptr: *mut u8, layout: Layout) {
         if recording() {
-            push(Rec { op: Op::Dealloc, ptr: ptr as usize, size: layout.size(), align: layout.align(), new_size: 0, new_ptr: 0, injected_fail: false });
+            push(Rec { op: Op::Dealloc, ptr: ptr as usize, size: layout.size(), align: layout.align(), new_size: 0, new_ptr: 0, injected_fail: false, masked: masked() });
         }
         System.dealloc(ptr, layout)
     }
     unsafe fn realloc(&self, ptr: *mut u8, layout: Layout, new_size: usize) -> *mut u8 {
         if recording() {
             if should_fail() {
-                push(Rec { op: Op::Realloc, ptr: ptr as usize, size: layout.size(), align: layout.align(), new_size, new_ptr: 0, injected_fail: true });
+                push(Rec { op: Op::Realloc, ptr: ptr as usize, size: layout.size(), align: layout.align(), new_size, new_ptr: 0, injected_fail: true, masked: false });
                 return core::ptr::null_mut();
             }
             let p = System.realloc(ptr, layout, new_size);
-            push(Rec { op: Op::Realloc, ptr: ptr as usize, size: layout.size(), align: layout.align(), new_size, new_ptr: p as usize, injected_fail: false });
+            push(Rec { op: Op::Realloc, ptr: ptr as usize, size: layout.size(), align: layout.align(), new_size, new_ptr: p as usize, injected_fail: false, masked: masked() });
             p
         } else {
             System.realloc(ptr, layout, new_size)
@@ -188,6 +197,17 @@ impl Drop for Window {
     }
 }
 
+/// Number of records in the current window's log (a position marker).
+pub fn log_pos() -> usize {
+    LOG.with(|l| unsafe { (*l.get()).n })
+}
+
+/// Arm failure injection from now on: the k-th unmasked allocation request
+/// (alloc / alloc_zeroed / realloc) after this call returns null.
+pub fn arm_fail(k: Option<usize>) {
+    FAIL_AT.with(|f| f.set(k.map(|k| k as i64).unwrap_or(-1)));
+}
+
 /// Is a recording window open (used by engines to assert the allocator is installed)?
 pub fn requests_seen() -> u64 {
     REQS.with(|r| r.get())
@@ -239,10 +259,38 @@ impl Trace {
     pub fn audit(&self, expect_empty: bool) -> Audit {
         let mut a = Audit::default();
         let mut live: Vec<(usize, usize, usize)> = Vec::new();
+        let mut masked_live: Vec<usize> = Vec::new();
         if self.overflow {
             a.violations.push(AllocViolation::LogOverflow);
         }
         for r in &self.recs {
+            if r.masked {
+                // monitor bookkeeping: keep the live set consistent, apply no rule
+                match r.op {
+                    Op::Alloc | Op::AllocZeroed => {
+                        if r.ptr != 0 {
+                            masked_live.push(r.ptr);
+                        }
+                    }
+                    Op::Dealloc => {
+                        if let Some(i) = masked_live.iter().position(|p| *p == r.ptr) {
+                            masked_live.swap_remove(i);
+                        } else if let Some(i) = live.iter().position(|b| b.0 == r.ptr) {
+                            live.swap_remove(i);
+                        }
+                    }
+                    Op::Realloc => {
+                        if let Some(i) = masked_live.iter().position(|p| *p == r.ptr) {
+                            if r.new_ptr != 0 {
+                                masked_live[i] = r.new_ptr;
+                            }
+                        } else if r.new_ptr != 0 {
+                            masked_live.push(r.new_ptr);
+                        }
+                    }
+                }
+                continue;
+            }
             match r.op {
                 Op::Alloc | Op::AllocZeroed => {
                     a.allocs += 1;
@@ -274,7 +322,13 @@ impl Trace {
                                 });
                             }
                         }
-                        None => a.violations.push(AllocViolation::ReleaseUnknown { ptr: r.ptr, size: r.size, align: r.align }),
+                        None => {
+                            if let Some(i) = masked_live.iter().position(|p| *p == r.ptr) {
+                                masked_live.swap_remove(i);
+                            } else {
+                                a.violations.push(AllocViolation::ReleaseUnknown { ptr: r.ptr, size: r.size, align: r.align })
+                            }
+                        }
                     }
                 }
                 Op::Realloc => {
@@ -301,7 +355,16 @@ impl Trace {
                                 live[i] = (r.new_ptr, r.new_size, r.align);
                             }
                         }
-                        None => a.violations.push(AllocViolation::ReleaseUnknown { ptr: r.ptr, size: r.size, align: r.align }),
+                        None => {
+                            if let Some(i) = masked_live.iter().position(|p| *p == r.ptr) {
+                                // a monitor block grown by unmasked code: it stays a monitor block
+                                if r.new_ptr != 0 {
+                                    masked_live[i] = r.new_ptr;
+                                }
+                            } else {
+                                a.violations.push(AllocViolation::ReleaseUnknown { ptr: r.ptr, size: r.size, align: r.align })
+                            }
+                        }
                     }
                 }
             }
@@ -317,7 +380,7 @@ impl Trace {
 
     /// Was a block of at least `min` bytes requested (alloc or growing realloc)?
     pub fn requested_at_least(&self, min: usize) -> bool {
-        self.recs.iter().any(|r| match r.op {
+        self.recs.iter().filter(|r| !r.masked).any(|r| match r.op {
             Op::Alloc | Op::AllocZeroed => r.size >= min,
             Op::Realloc => r.new_size >= min && r.new_size > r.size,
             Op::Dealloc => false,
@@ -333,6 +396,7 @@ impl Trace {
     pub fn brief(&self) -> Vec<String> {
         self.recs
             .iter()
+            .filter(|r| !r.masked)
             .take(24)
             .map(|r| match r.op {
                 Op::Alloc => format!("alloc({},{}){}", r.size, r.align, if r.injected_fail { "=NULL(injected)" } else { "" }),
